@@ -97,6 +97,7 @@ fn build_resource(r: &Res, ids: &mut Ids) -> actix_web::Resource {
             RK::Get => res.route(web::get().to(h)),
             RK::Post => res.route(web::post().to(h)),
             RK::Any => res.to(h),
+            RK::Hdr => res.route(web::route().guard(guard::Header("x-g", "1")).to(h)),
         };
     }
     res
